@@ -5,7 +5,7 @@ import endguard
 import kinds
 from cfg import graph
 from common import Ob, OK, VIOLATED, UNDECIDED, AnalysisBroken
-from ir import fmt_term
+from ir import fmt_term, resolve_calls
 
 MD = 'pgm::MultidimensionalPGMIndex'
 RI = MD + '::RangeIterator'
@@ -125,6 +125,7 @@ def rule_true_implies_eq(ctx):
                 continue
             # equality atoms: `Decode(*it) == p` or `*it == encode(p)` with `it` a FIRST_GE(encode(p)) search result
             eq_atoms = []
+            unknown_cand = False
             for a in _atoms(form):
                 t = f.term(a, inline=True)
                 if t[0] == 'op' and t[1] == '==' and len(t) == 4:
@@ -135,9 +136,11 @@ def rule_true_implies_eq(ctx):
                         elif x[0] == 'deref' and y == enc:
                             cand = x[1]
                         if cand is not None:
-                            k = kinds.kind_of_term(cand)
-                            if k and k[0] == 'FIRST_GE' and k[1] == enc:
+                            k = kinds.kind_of_term(cand) or kinds.kind_of_term(resolve_calls(f.unit, cand))
+                            if k and k[0] == 'FIRST_GE' and k[1] in (enc, resolve_calls(f.unit, enc)):
                                 eq_atoms.append(a)
+                            elif not k:
+                                unknown_cand = True
             # also accept a return that is control dependent on such an equality being true
             ok = any(_implies_atom(form, a) for a in eq_atoms)
             how = 'the returned expression implies the equality atom' if ok else ''
@@ -159,8 +162,9 @@ def rule_true_implies_eq(ctx):
                               f"`{found}`: {how}", OK, arm='ret'))
             else:
                 obs.append(Ob('TRUE-IMPLIES-EQ', f, r, 'contains() yields true only if the element at lower_bound(encode(p)) equals p',
-                              f"`{found}` can evaluate to true without the equality `Decode(*it) == p` (it = lower_bound(..., encode(p))) being true",
-                              VIOLATED, arm='ret'))
+                              f"`{found}` can evaluate to true without the equality `Decode(*it) == p` (it = lower_bound(..., encode(p))) being true" +
+                              (' - the compared position comes from a search of unrecognised shape' if unknown_cand else ''),
+                              UNDECIDED if unknown_cand else VIOLATED, arm='ret'))
     return obs
 
 
@@ -376,8 +380,8 @@ def rule_false_implies_absent(ctx):
             if t[0] == 'op' and len(t) == 4 and t[1] in ('==', '!='):
                 for x, y in ((_sc(t[2]), _sc(t[3])), (_sc(t[3]), _sc(t[2]))):
                     if y[0] == 'call' and y[1].endswith('::end') and not y[2]:
-                        k = kinds.kind_of_term(x)
-                        if k and k[0] == 'FIRST_GE' and k[1] == enc:
+                        k = kinds.kind_of_term(x) or kinds.kind_of_term(resolve_calls(u, x))
+                        if k and k[0] == 'FIRST_GE' and k[1] in (enc, resolve_calls(u, enc)):
                             return t[1] == '=='
                     cand = None
                     if x[0] == 'call' and x[1].endswith('::Decode') and len(x[2]) == 1 and _sc(x[2][0])[0] == 'deref' and y == par:
@@ -385,8 +389,8 @@ def rule_false_implies_absent(ctx):
                     elif x[0] == 'deref' and y == enc:
                         cand = x[1]
                     if cand is not None:
-                        k = kinds.kind_of_term(cand)
-                        if k and k[0] == 'FIRST_GE' and k[1] == enc:
+                        k = kinds.kind_of_term(cand) or kinds.kind_of_term(resolve_calls(u, cand))
+                        if k and k[0] == 'FIRST_GE' and k[1] in (enc, resolve_calls(u, enc)):
                             return t[1] == '!='
                 return None
             pp = _point_pred(u, f, t, par)
@@ -510,7 +514,24 @@ def rule_contains_kind(ctx):
         enc = ('call', MD + '::encode', (('param', f.params[0]['name']),), None)
         sites = f.calls(pred=lambda nd: nd.get('ct') in kinds.LOWER + kinds.UPPER)
         if not sites:
-            obs.append(Ob('KIND', f, 0, 'a lower_bound search for encode(p)', 'no binary search call found', VIOLATED, arm='contains'))
+            # the search may have been moved into a member helper with one return: resolve it
+            helper_sites = []
+            for c in f.calls():
+                t0 = f.term(c, inline=True)
+                tr = resolve_calls(f.unit, t0)
+                if tr != t0 and kinds.kind_of_term(tr):
+                    helper_sites.append((c, tr))
+            if helper_sites:
+                for (c, tr) in helper_sites:
+                    k = kinds.kind_of_term(tr)
+                    encs = (enc, resolve_calls(f.unit, enc))
+                    ok = k[0] == 'FIRST_GE' and k[1] in encs
+                    rng_ok = any(_contains(k[2], ('field', 'lo', ('call', 'pgm::PGMIndex::search', (e_,), ('field', 'pgm', ('this',))))) and
+                                 _contains(k[3], ('field', 'hi', ('call', 'pgm::PGMIndex::search', (e_,), ('field', 'pgm', ('this',))))) for e_ in encs)
+                    obs.append(Ob('KIND', f, c, 'FIRST_GE(encode(p)) within [search(encode(p)).lo, .hi)', f"{k[0]}({fmt_term(k[1])}) through a helper", OK if ok and rng_ok else VIOLATED, arm='contains'))
+                continue
+            calls_helpers = any((f.n(c).get('ct') or '').startswith(MD + '::') and f.n(c).get('cn') not in ('encode',) for c in f.calls())
+            obs.append(Ob('KIND', f, 0, 'a lower_bound search for encode(p)', 'no binary search call found' + (' in contains() itself' if calls_helpers else ''), UNDECIDED if calls_helpers else VIOLATED, arm='contains'))
             continue
         for s in sites:
             k = kinds.kind_of_term(f.term(s, inline=True))
